@@ -2,6 +2,7 @@ import EgoVerif.Common.Drv
 import EgoVerif.C24.Model
 /- line protocol (state: configuration + limiter state; user names are hex of the lower-cased name):
    `reset <limit> <lockout ns>`      → `ok`      fresh limiter, clock 0
+   `cfg <limit> <lockout ns>`        → `ok`      the settings change (configuration API), limiter state kept
    `adv <ns>`                        → `ok`
    `att <user> <g|b|e>`              → `ok r1` | `denied r<0|1>` | `locked <retry> r0`   (Authenticate; r = store was read)
    `prune`                           → `ok`
@@ -21,6 +22,10 @@ def dstep (d : DSt) (line : String) : DSt × String :=
   | ["reset", l, k] =>
     match l.toNat?, k.toNat? with
     | some l, some k => ({ cfg := ⟨l, k⟩, st := init }, "ok")
+    | _, _ => (d, "bad-input")
+  | ["cfg", l, k] =>      -- the settings change, the records stay
+    match l.toNat?, k.toNat? with
+    | some l, some k => ({ d with cfg := ⟨l, k⟩ }, "ok")
     | _, _ => (d, "bad-input")
   | ["adv", n] =>
     match n.toNat? with
